@@ -27,18 +27,31 @@ func defsC20() []*ph.Def {
 					{Name: "color", Kind: ph.Str, Aliases: []string{"colour", "colr"}},
 					{Name: "list", Kind: ph.StrS, Min: 1, Max: 2},
 					{Name: "map", Kind: ph.Map, Min: 1, Max: 2},
-					{Name: "defs", Kind: ph.Map, Min: 1, Max: 1, Var: true, Preset: [][2]string{{"k2", "v2"}, {"k1", "v1"}, {"k3", "v3"}}}, // the caller's map already holds entries
-					{Name: "time", Kind: ph.Int, ArgName: "seconds"},
-					{Name: "timeout", Kind: ph.Str, ArgName: "duration", Suggested: []string{"1s", "1m"}},
 				},
 				ArgCompl: []string{"zarg", "aarg", "marg"},
 				Cmds: []*ph.CmdDef{
 					{Name: "build", Desc: "b", Opts: []ph.OptDef{{Name: "target", Kind: ph.Str, Required: true}, {Name: "arch", Kind: ph.Str, Required: true, ReqMsg: "arch missing"}, {Name: "os", Kind: ph.Str, Required: true}}},
-					{Name: "bundle", Desc: "bu"},
+					{Name: "bundle", Desc: "bu", Cmds: []*ph.CmdDef{{Name: "x1", Desc: "the other x1"}, {Name: "x3"}}}, // x1 exists under two parents
 					{Name: "zap", Desc: "z", Cmds: []*ph.CmdDef{{Name: "x1"}, {Name: "x2"}}},
 				},
 			}})
 		}
+	}
+	// a second, smaller program: a caller-owned map that already holds entries, option pairs sharing a prefix with
+	// different argument names and suggestions, four environment-bound options whose variables all hold unusable text
+	for mode := 0; mode < 3; mode++ {
+		out = append(out, &ph.Def{Mode: mode, Unknown: 1, Help: "help", Root: ph.CmdDef{Name: "prog", Desc: "determinism 2",
+			Opts: []ph.OptDef{
+				{Name: "verbose", Kind: ph.Bool, Aliases: []string{"v"}},
+				{Name: "version", Kind: ph.Bool},
+				{Name: "verify", Kind: ph.Str, DefS: "D", Suggested: []string{"sv2", "sv1", "sv3"}},
+				{Name: "defs", Kind: ph.Map, Min: 1, Max: 1, Var: true, Preset: [][2]string{{"k2", "v2"}, {"k1", "v1"}, {"k3", "v3"}}},
+				{Name: "e1", Kind: ph.Int, Env: "VERIF_C20_E1"}, {Name: "e2", Kind: ph.Flt, Env: "VERIF_C20_E2"}, {Name: "e3", Kind: ph.Bool, Env: "VERIF_C20_E3"}, {Name: "e4", Kind: ph.IntOpt, Env: "VERIF_C20_E4"},
+				{Name: "time", Kind: ph.Int, ArgName: "seconds"},
+				{Name: "timeout", Kind: ph.Str, ArgName: "duration", Suggested: []string{"1s", "1m"}},
+			},
+			Cmds: []*ph.CmdDef{{Name: "c1"}, {Name: "c2"}},
+		}})
 	}
 	// several missing required options at the root
 	for _, ro := range []bool{false, true} {
@@ -61,7 +74,11 @@ var c20Argvs = [][]string{
 	{"--help"}, {"build", "--help"}, {"zap", "--he"}, {"--map", "k=v", "a=b"}, {"--map", "b=1", "--map", "a=2"}, {"--list", "x", "y"}, {"--verify"}, {"--verify=sv"}, {"--alpha=1"}, {"--beta=2", "--gamma"},
 	{"--alpha=1", "--beta=2", "--gamma"}, {"c1"}, {"c1", "--alpha=1"}, {"p", "--unk", "c2"}, {"--", "x"}, {"--ver", "--unk"},
 	{"--defs", "a=b"}, {"--time", "5", "--timeout", "1s"}, {"--tim", "5"},
+	{"help", "x1"}, {"help", "x3"}, {"bundle", "help", "x1"}, {"help", "nosuch"},
 }
+
+// environment of every C20 case: several bound variables hold unusable text at the same time
+var c20Env = map[string]string{"VERIF_C20_E1": "one", "VERIF_C20_E2": "two", "VERIF_C20_E3": "maybe", "VERIF_C20_E4": "4x"}
 
 var c20CompLines = []string{"prog ", "prog -", "prog --", "prog --ver", "prog --verify=", "prog --verify=sv", "prog b", "prog build ", "prog build --", "prog zap ", "prog help ", "prog build help ", "prog --l", "prog a", "prog --map=",
 	// options already given earlier on the line
@@ -74,7 +91,7 @@ func c20Observe(def *ph.Def, argv []string, compLine string) string {
 		os.Setenv("COMP_LINE", compLine)
 		defer os.Unsetenv("COMP_LINE")
 	}
-	p := ph.Build(def, nil)
+	p := ph.Build(def, c20Env)
 	defer p.Close()
 	o := p.Run(argv, true)
 	fmt.Fprintf(&b, "panic=%q hang=%v err=%q remaining=%q warnings=%q\n", firstLine(o.Panic), o.Hang, o.ParseErr, o.Remaining, o.Warnings)
@@ -140,7 +157,7 @@ func init() {
 	register(&Check{
 		ID:        "C20",
 		QuickSecs: 150, ThoroSecs: 1500,
-		Rule: "exploration of hidden nondeterminism: Go's randomised map iteration is replaced (build-time instrumentation of all 22 map ranges of the library) by an explorer-chosen rotation of the sorted key order; for 11 definitions with >= 2 entries in every internal table (options, aliases, commands, suggestions, required options) x 46 argv and 21 COMP_LINE texts provoking several simultaneous diagnostics, " +
+		Rule: "exploration of hidden nondeterminism: Go's randomised map iteration is replaced (build-time instrumentation of all 22 map ranges of the library) by an explorer-chosen rotation of the sorted key order; for 14 definitions with >= 2 entries in every internal table (options, aliases, commands, suggestions, required options) x 50 argv and 21 COMP_LINE texts, four environment-bound options whose variables all hold unusable text, provoking several simultaneous diagnostics, " +
 			"every execution with <= d non-default rotations is run (bounded-deviation DFS over the range executions) and its complete observation vector (values, remaining, error text, warnings, dispatch result, help text, completion list) must be identical to the default-order run; additionally the same case is run twice with the native map order; " +
 			"states = choice points visited, transitions = range executions, distinct_nontrivial = cases whose execution has at least one order choice point",
 		Assume: []string{"iteration orders are rotations of the sorted key order (every element comes first under some rotation); other permutations are not explored", "definitions and inputs outside the stated lists are not covered"},
@@ -176,9 +193,9 @@ func init() {
 					break
 				}
 				un := units[u]
-				// quick: two simultaneous order deviations on every eighth case; thorough: on all
+				// quick: two simultaneous order deviations on every 24th case; thorough: on all
 				dd := d
-				if d == 1 && u%8 == 0 {
+				if d == 1 && u%24 == 0 {
 					dd = 2
 				}
 				v, ex := c20Explore(c, un.def, un.argv, un.comp, dd)
